@@ -1027,3 +1027,115 @@ package decimal
 //@   panics[nan,C04,C05] old(x.form) != zero && old(x.neg)
 //@   onpanic[valid,C04,C08] old(z.form) != finite || old(z.prec) != 0 ==> z.form == old(z.form) && z.mode == old(z.mode)
 //@   tags safety C04,C05
+
+// shr: x shifted right by s decimal digits, the digits shifted out as ghost remainder:
+// V(x) == V(result)*10^s + grem, 0 <= grem < 10^s (i.e. V(result) = floor(V(x)/10^s)).
+//@ func (z dec) shr(x dec, s uint) dec
+//@   requires[words]   wordsok(x) && small(x) && s <= 1099511627775 && natnorm(x)
+//@   requires[overlap] dst_ok(z, x)
+//@   split s % 19 in 0..18
+//@   modifies memcap(z)
+//@   ghost grem
+//@   ensures[where]    result_in(result, z)
+//@   ensures[words,C08] wordsok(result) && natnorm(result)
+//@   ensures[value,C14] old(V(x)) == V(result)*p10(s) + grem && 0 <= grem && grem < p10(s)
+//@   ensures[len]      len(result) <= len(x)
+//@   hint[entry] p10_split(s/19, s%19)
+//@   hint[entry] V_bounds(x, 0, len(x))
+//@   hint[entry] s/19 <= len(x) ==> V_split(old(x), 0, s/19, len(x))
+//@   hint[entry] s/19 <= len(x) ==> V_bounds(old(x), 0, s/19)
+//@   hint[entry] s/19 >= len(x) ==> P_mono(len(x), s/19)
+//@   hint[entry] P_mono(0, s/19)
+//@   hint[entry] p10_mono(0, s%19)
+//@   hint[after:shr10VU#1] mul_eq(V(old(x), m-n, m), V(z)*p10(s%19) + result/p10(19 - s%19), P(s/19))
+//@   hint[after:shr10VU#1] mul_mono(result/p10(19 - s%19), p10(s%19) - 1, P(s/19))
+//@   hint[after:shr10VU#1] mul_mono(0, result/p10(19 - s%19), P(s/19))
+//@   hint[after:shr10VU#1] bind(grem, P(s/19)*(result/p10(19 - s%19)) + V(old(x), 0, s/19))
+//@   hint[ret] s == 0 ==> bind(grem, 0)
+//@   hint[ret] s != 0 && len(old(x)) <= s/19 ==> bind(grem, old(V(x)))
+
+// tz(m, r): r is the number of trailing zero decimal digits of the non-zero mantissa m
+// (word-level characterisation: whole zero words, then the zeros of the first non-zero word).
+//@ define tz(m, r) = r/19 < len(m) && (forall k in 0..r/19 :: m[k] == 0) && m[r/19] % p10(r % 19) == 0 && m[r/19] % p10(r % 19 + 1) != 0
+
+//@ func (x dec) trailingZeroDigits() uint
+//@   pure
+//@   requires[nz] wordsok(x) && (len(x) == 0 || x[len(x)-1] != 0) && small(x)
+//@   ensures[empty] len(x) == 0 ==> result == 0
+//@   ensures[value,C14] len(x) >= 1 ==> tz(x, result)
+//@   loop 1 invariant[range] 0 <= i && i < len(x)
+//@   loop 1 invariant[zeros] forall k in 0..i :: x[k] == 0
+//@   tags safety C04,C14
+
+//@ func (x *Decimal) MinPrec() uint
+//@   pure
+//@   requires[wf] opnd(x)
+//@   ensures[special,C14] x.form != finite ==> result == 0
+//@   ensures[value,C14,C08] x.form == finite ==> 1 <= result && result <= 19*len(x.mant) && tz(x.mant, 19*len(x.mant) - result)
+//@   tags safety C04,C14
+
+// integer part of a finite x with exp >= 1: T = V(result) with
+//   exp >= 19L:  T == M*10^(exp-19L)                      (grem == 0)
+//   exp <  19L:  M == T*10^(19L-exp) + grem, 0 <= grem < 10^(19L-exp)   (T = floor)
+//@ func (x *Decimal) intMant() dec
+//@   requires[wf] finop(x) && x.exp >= 1
+//@   ghost grem
+//@   ensures[words,C14] wordsok(result) && natnorm(result) && len(result) <= len(x.mant) + x.exp/19 + 2
+//@   ensures[up,C14] x.exp >= 19*len(x.mant) ==> V(result) == V(x.mant)*p10(x.exp - 19*len(x.mant)) && grem == 0
+//@   ensures[down,C14] x.exp < 19*len(x.mant) ==> V(x.mant) == V(result)*p10(19*len(x.mant) - x.exp) + grem && 0 <= grem && grem < p10(19*len(x.mant) - x.exp)
+//@   ensures[operands,C09,C18] unchanged(x)
+//@   hint[after:shr#1] bind(grem, ghost_grem)
+//@   hint[after:shl#1] bind(grem, 0)
+//@   hint[after:set#1] bind(grem, 0)
+//@   tags safety C04,C14
+
+// Uint64: truncation toward zero with saturation; gT is the integer part of |x|.
+//@ func (x *Decimal) Uint64() (uint64, Accuracy)
+//@   requires[wf] opnd(x)
+//@   ghost gT, grem, gmp
+//@   ensures[zero,C14] x.form == zero ==> result0 == 0 && result1 == 0
+//@   ensures[neg,C14] x.form != zero && x.neg ==> result0 == 0 && result1 == 1
+//@   ensures[inf,C14] x.form == inf && !x.neg ==> result0 == 18446744073709551615 && result1 == 0 - 1
+//@   ensures[frac,C14] x.form == finite && !x.neg && x.exp <= 0 ==> result0 == 0 && result1 == 0 - 1
+//@   ensures[huge,C14] x.form == finite && !x.neg && x.exp > 20 ==> result0 == 18446744073709551615 && result1 == 0 - 1
+//@   ensures[trunc,C14] x.form == finite && !x.neg && 1 <= x.exp && x.exp <= 20 ==>
+//@        (x.exp >= 19*len(x.mant) ==> gT == V(x.mant)*p10(x.exp - 19*len(x.mant)) && grem == 0) &&
+//@        (x.exp < 19*len(x.mant) ==> V(x.mant) == gT*p10(19*len(x.mant) - x.exp) + grem && 0 <= grem && grem < p10(19*len(x.mant) - x.exp)) &&
+//@        (gT <= 18446744073709551615 ==> result0 == gT) && (gT > 18446744073709551615 ==> result0 == 18446744073709551615 && result1 == 0 - 1)
+//@   ensures[acc,C14] x.form == finite && !x.neg && 1 <= x.exp && x.exp <= 20 && gT <= 18446744073709551615 ==>
+//@        (result1 == 0 || result1 == 0 - 1) && tz(x.mant, 19*len(x.mant) - gmp) && (result1 == 0 <==> gmp <= x.exp)
+//@   ensures[operands,C09,C18] unchanged(x)
+//@   hint[after:intMant#1] bind(gT, V(result))
+//@   hint[after:intMant#1] bind(grem, ghost_grem)
+//@   hint[after:MinPrec#1] bind(gmp, result)
+//@   tags safety C04,C14
+
+//@ func (x *Decimal) Int64() (int64, Accuracy)
+//@   requires[wf] opnd(x)
+//@   ghost gT, grem, gmp
+//@   ensures[zero,C14] x.form == zero ==> result0 == 0 && result1 == 0
+//@   ensures[inf,C14] x.form == inf ==> (x.neg ==> result0 == 0 - 9223372036854775808 && result1 == 1) && (!x.neg ==> result0 == 9223372036854775807 && result1 == 0 - 1)
+//@   ensures[frac,C14] x.form == finite && x.exp <= 0 ==> result0 == 0 && result1 == (x.neg ? 1 : 0 - 1)
+//@   ensures[huge,C14] x.form == finite && x.exp > 20 ==> (x.neg ==> result0 == 0 - 9223372036854775808 && result1 == 1) && (!x.neg ==> result0 == 9223372036854775807 && result1 == 0 - 1)
+//@   ensures[trunc,C14] x.form == finite && 1 <= x.exp && x.exp <= 20 ==>
+//@        (x.exp >= 19*len(x.mant) ==> gT == V(x.mant)*p10(x.exp - 19*len(x.mant)) && grem == 0) &&
+//@        (x.exp < 19*len(x.mant) ==> V(x.mant) == gT*p10(19*len(x.mant) - x.exp) + grem && 0 <= grem && grem < p10(19*len(x.mant) - x.exp)) &&
+//@        (!x.neg && gT <= 9223372036854775807 ==> result0 == gT) && (!x.neg && gT > 9223372036854775807 ==> result0 == 9223372036854775807 && result1 == 0 - 1) &&
+//@        (x.neg && gT <= 9223372036854775808 ==> result0 == 0 - gT) && (x.neg && gT > 9223372036854775808 ==> result0 == 0 - 9223372036854775808 && result1 == 1)
+//@   ensures[acc,C14] x.form == finite && 1 <= x.exp && x.exp <= 20 && gT <= (x.neg ? 9223372036854775808 : 9223372036854775807) ==>
+//@        tz(x.mant, 19*len(x.mant) - gmp) && result1 == (gmp <= x.exp ? 0 : (x.neg ? 1 : 0 - 1))
+//@   ensures[operands,C09,C18] unchanged(x)
+//@   hint[after:intMant#1] bind(gT, V(result))
+//@   hint[after:intMant#1] bind(grem, ghost_grem)
+//@   hint[after:MinPrec#1] bind(gmp, result)
+//@   tags safety C04,C14
+
+//@ func (x *Decimal) IsInt() bool
+//@   requires[wf] opnd(x)
+//@   ghost gmp
+//@   ensures[special,C14] x.form != finite ==> (result <==> x.form == zero)
+//@   ensures[frac,C14] x.form == finite && x.exp <= 0 ==> !result
+//@   ensures[wide,C14] x.form == finite && x.exp >= 1 && x.prec <= x.exp ==> result
+//@   ensures[digits,C14] x.form == finite && x.exp >= 1 && x.prec > x.exp ==> tz(x.mant, 19*len(x.mant) - gmp) && (result <==> gmp <= x.exp)
+//@   hint[after:MinPrec#1] bind(gmp, result)
+//@   tags safety C04,C14
